@@ -42,8 +42,16 @@ type TUNode struct {
 
 func (t *TUNode) UnmarshalText(b []byte) error { return nil }
 
+// KSN: a map KEY that contains a pointer to a node (the copier copies keys like values)
+type KSN struct {
+	K string
+	P *SN
+}
+
 type SN struct {
 	Name string
+	MS   map[KSN]int     // struct keys containing node pointers
+	MP   map[[1]*SN]bool // array keys of node pointers
 	TU   TUNode
 	MM   map[string]map[string]*SN // map of maps: the inner maps are referenced again by the M / Ms fields visited later
 	Kids []*SN
@@ -60,8 +68,9 @@ type SN struct {
 
 // IN: references held in interface values (directly, in a slice, in a map).
 type IN struct {
-	PI   *int           // typed references to pointers to NON-structs, visited before the
-	PL   *[]interface{} // interface values below that may hold the very same pointers
+	MI   map[interface{}]int // interface keys holding pointers (*IN, *int) and plain values
+	PI   *int                // typed references to pointers to NON-structs, visited before the
+	PL   *[]interface{}      // interface values below that may hold the very same pointers
 	PM   *map[string]interface{}
 	Any  interface{}
 	Anys []interface{}
@@ -466,6 +475,14 @@ func buildSN(g *gen, n int) []*SN {
 		if r.Chance(1, 3) {
 			nd.Box = [1][2]*SN{{pick(i), pick(i)}}
 		}
+		if r.Chance(1, 4) {
+			nd.MS = map[KSN]int{{K: "a", P: pick(i)}: 1, {K: "b", P: pick(i)}: 2}
+		}
+		if r.Chance(1, 5) {
+			if t := pick(i); t != nil {
+				nd.MP = map[[1]*SN]bool{{t}: true}
+			}
+		}
 		if r.Chance(1, 3) {
 			nd.TU = TUNode{Kids: []*SN{pick(i), pick(i)}, M: poolMap()}
 			if r.Chance(1, 2) && len(nd.Kids) > 0 {
@@ -502,6 +519,15 @@ func buildSN(g *gen, n int) []*SN {
 			m[string(rune('a'+j))] = pick(r.Intn(n))
 		}
 	}
+	if n >= 2 && r.Chance(1, 3) {
+		// an all-ZERO placeholder node (every field zero / nil) referenced several times
+		z := 1 + r.Intn(n-1)
+		*nodes[z] = SN{}
+		nodes[0].Arr = [2]*SN{nodes[z], nodes[z]}
+		if r.Chance(1, 2) {
+			nodes[0].Kids = append([]*SN{nodes[z]}, nodes[0].Kids...)
+		}
+	}
 	return nodes
 }
 
@@ -522,7 +548,7 @@ func buildIN(g *gen, n int) []*IN {
 	}
 	// pointers to non-structs, shared between typed fields and interface values
 	ints := []*int{new(int), new(int)}
-	*ints[0], *ints[1] = 7, 8
+	*ints[0], *ints[1] = 7, 0 // the second pointee is the zero value, and shared
 	str := new(string)
 	*str = "p"
 	lists := make([]*[]interface{}, 2)
@@ -653,6 +679,25 @@ func buildIN(g *gen, n int) []*IN {
 			m["self"] = m
 		}
 	}
+	for i, nd := range nodes {
+		if r.Chance(1, 4) {
+			nd.MI = map[interface{}]int{"s": 1, ints[r.Intn(2)]: 2}
+			if t := g.target(i, n); t >= 0 {
+				nd.MI[nodes[t]] = 3
+			}
+		}
+	}
+	if n >= 2 && r.Chance(1, 3) {
+		// an all-ZERO node, an empty map and a nil map behind shared pointers, each referenced twice
+		z := 1 + r.Intn(n-1)
+		*nodes[z] = IN{}
+		nodes[0].Any = nodes[z]
+		nodes[0].Anys = append([]interface{}{nodes[z]}, nodes[0].Anys...)
+		var nilMap map[string]interface{}
+		pm := &nilMap
+		nodes[0].PM = pm
+		nodes[0].Anys = append(nodes[0].Anys, pm)
+	}
 	return nodes
 }
 
@@ -668,6 +713,12 @@ func buildPN(g *gen, n int) []*PN {
 		if t := g.target(i, n); t >= 0 {
 			nd.Other = nodes[t]
 		}
+	}
+	if n >= 2 && g.r.Chance(1, 3) {
+		// an all-ZERO node referenced twice (a diamond onto an empty placeholder)
+		z := 1 + g.r.Intn(n-1)
+		*nodes[z] = PN{}
+		nodes[0].Next, nodes[0].Other = nodes[z], nodes[z]
 	}
 	return nodes
 }
